@@ -289,6 +289,28 @@ func (x *vc) eval(env *cenv, e *cexpr) Val {
 			return Val{T: app("go_mod", a.T, b.T), Typ: t}
 		}
 		return Val{T: app(e.op, a.T, b.T), Typ: t}
+	case "forallkeys", "existskeys":
+		m := x.eval(env, e.args[0])
+		mt, ok := m.Typ.Underlying().(*types.Map)
+		if !ok {
+			x.cfail("forall k in keys(m): m must be a map")
+		}
+		d, _, _ := x.mapArrs(env.st, mt)
+		bv := fmt.Sprintf("q_%s!%d", mangle(e.name), x.fresh)
+		x.fresh++
+		sub := *env
+		sub.bound = map[string]Val{}
+		for k, v := range env.bound {
+			sub.bound[k] = v
+		}
+		sub.bound[e.name] = Val{T: bv, Typ: mt.Key()}
+		body := x.evalBool(&sub, e.args[1])
+		in := and(not(eq(m.T, "0")), app("select", app("select", env.st.heap[d], m.T), bv))
+		ks := x.srt.sortOf(mt.Key())
+		if e.op == "forallkeys" {
+			return Val{T: fmt.Sprintf("(forall ((%s %s)) %s)", bv, ks, implies(in, body)), Typ: boolT}
+		}
+		return Val{T: fmt.Sprintf("(exists ((%s %s)) %s)", bv, ks, and(in, body)), Typ: boolT}
 	case "forall", "exists":
 		lo := x.eval(env, e.args[0]).T
 		hi := x.eval(env, e.args[1]).T
